@@ -79,7 +79,7 @@ func (w *World) decideFault(c *Call) Kind {
 		k = FErr
 	case isW && f.AckLost > 0 && w.S.Bool(f.AckLost, 1000):
 		k = FAckLost
-	case (c.Op == OpPut || c.Op == OpPutExcl) && f.Torn > 0 && w.S.Bool(f.Torn, 1000):
+	case (c.Op == OpPut || c.Op == OpPutExcl || c.Op == OpFsWrite) && f.Torn > 0 && w.S.Bool(f.Torn, 1000):
 		k = FTorn
 	case f.Stall > 0 && w.S.Bool(f.Stall, 1000):
 		k = FStall
